@@ -4,6 +4,9 @@ import importlib
 
 MODULES = {
     "C18": ["contracts.types_named"],
+    "C04": ["contracts.ash"],
+    "C05": ["contracts.ash"],
+    "C01": ["contracts.ash"],
 }
 
 EXTRA_OBLIGATIONS = {}
